@@ -26,7 +26,7 @@ from urllib.parse import unquote
 
 from run import Broken, Violation
 
-GEN = ["SharePoint"]
+GEN = ["SharePoint", "PyClient"]
 RULE = ("library = random folder tree (depth<=4, 0..7 items per folder: files / folders / facet-less items / non-dict "
         "entries; names with spaces, %, #, +, &, non-ASCII; optional fields missing; Graph timestamps with 0..7 "
         "fraction digits, offsets, missing or junk) x page size 1..N x call (list_all_files | list_files_filtered "
